@@ -359,3 +359,13 @@ fn copy_contract<const M: usize>() {
 }
 harness! { fn copy_overshooting_contract_m33() { copy_contract::<33>(); } }
 harness! { fn copy_overshooting_contract_m48() { copy_contract::<48>(); } }
+
+// ---------------------------------------------------------------- counting ring for S11 (C05)
+/// A ring with a fictitious capacity of 2^40 and no memory behind it: under S11 every operation only moves `tail`,
+/// so `len()` is the number of bytes the decoder would be holding.  Never dropped (the harness forgets it).
+pub(crate) fn counting_ring(start_len: usize) -> RingBuffer {
+    RingBuffer { buf: NonNull::dangling(), cap: 1usize << 40, head: 0, tail: start_len }
+}
+impl RingBuffer {
+    pub(crate) fn verif_add_tail(&mut self, n: usize) { self.tail += n; }
+}
